@@ -35,8 +35,14 @@ func (n *pnode) String() string {
 		fmt.Fprintf(&b, "[%d]", n.n)
 	case "repeat":
 		fmt.Fprintf(&b, "[%d x%d]", n.m, n.n)
-	case "filter", "while", "map":
+	case "filter", "map":
 		fmt.Fprintf(&b, "[f%d]", n.fn)
+	case "while":
+		if n.fn == 5 {
+			fmt.Fprintf(&b, "[false-on-call-%d]", n.m)
+		} else {
+			fmt.Fprintf(&b, "[f%d]", n.fn)
+		}
 	case "compactfunc", "runssep", "runsflat":
 		fmt.Fprintf(&b, "[/%d]", n.n)
 	case "runshead":
@@ -108,6 +114,18 @@ func mapFn(id, x int) int {
 			return x
 		}
 		return x / 2
+	}
+}
+
+// whilePred returns the predicate of a While node; fn 5 is stateful (see the generator).
+func whilePred(n *pnode) func(int) bool {
+	if n.fn != 5 {
+		return func(x int) bool { return predFn(n.fn, x) }
+	}
+	calls := 0
+	return func(int) bool {
+		calls++
+		return calls != n.m
 	}
 }
 
@@ -204,7 +222,13 @@ func (g *pgen) node(depth int) *pnode {
 	case 2:
 		return &pnode{op: "first", n: []int{2, 0, 1, 5, 100, -1}[r.Choose(6, "first-n")], kids: []*pnode{g.node(depth - 1)}}
 	case 3:
-		return &pnode{op: "while", fn: r.Choose(5, "pred"), kids: []*pnode{g.node(depth - 1)}}
+		w := &pnode{op: "while", fn: r.Choose(6, "pred"), kids: []*pnode{g.node(depth - 1)}}
+		if w.fn == 5 {
+			// a predicate with state: false exactly on its m-th call, true otherwise (the end must stay
+			// reported even though asking the predicate again would now say true)
+			w.m = 1 + r.Choose(4, "nth-false")
+		}
+		return w
 	case 4:
 		return &pnode{op: "compact", kids: []*pnode{g.node(depth - 1)}}
 	case 5:
@@ -392,6 +416,7 @@ func mBuild(n *pnode, e *mEnv, errAt map[int]int, errs map[int]error, endAt map[
 	case "while":
 		in := kid(0)
 		done := false
+		pred := whilePred(n)
 		return mFunc(func() (int, error) {
 			if done {
 				return 0, errMEnd
@@ -403,7 +428,7 @@ func mBuild(n *pnode, e *mEnv, errAt map[int]int, errs map[int]error, endAt map[
 			if err := e.cb(); err != nil {
 				return 0, err
 			}
-			if !predFn(n.fn, v) {
+			if !pred(v) {
 				done = true
 				return 0, errMEnd
 			}
